@@ -29,8 +29,28 @@ import (
 
 func init() { subcmds["c14"] = c14Main }
 
+// genesis voting powers of the validators of the next run (nil = three validators of nearly equal power); validator 0
+// stakes 1000 more in the warm-up block
+var c14ValPowers []int64
+
+func c14WithPowers(p []int64, f func() *c14Case) *c14Case {
+	old := c14ValPowers
+	c14ValPowers = p
+	defer func() { c14ValPowers = old }()
+	return f()
+}
+
 // currency named in the amount of the next create / fund / withdraw transaction
 var c14Cur = "OLT"
+
+func c14IsHex(id string) bool {
+	for _, c := range []byte(id) {
+		if !((c >= '0' && c <= '9') || (c >= 'a' && c <= 'f') || (c >= 'A' && c <= 'F')) {
+			return false
+		}
+	}
+	return true
+}
 
 func c14Amount(v string) action.Amount { return curAmt(c14Cur, v) }
 func c14CurCode() int {
@@ -58,7 +78,14 @@ const (
 )
 
 func c14NewWorld() *c14World {
-	w := NewWorld(c14NVals, c14NUsers, 1)
+	nv := c14NVals
+	if c14ValPowers != nil {
+		nv = len(c14ValPowers)
+	}
+	w := NewWorld(nv, c14NUsers, 1)
+	for i := range c14ValPowers {
+		w.Vals[i].Power = c14ValPowers[i]
+	}
 	cw := &c14World{w: w, idx: map[string]int{}}
 	add := func(n string, a keys.Address) {
 		cw.idx[a.String()] = len(cw.accts)
@@ -100,6 +127,7 @@ func (cw *c14World) genesis() *GenesisSpec {
 			return governance.ProposalOption{InitialFunding: amt("1000000000"), FundingGoal: amt("10000000000"), FundingDeadline: c14FundDL[t], VotingDeadline: c14VDelta[t],
 				PassPercentage: c14Pass[t], PassedFundDistribution: p, FailedFundDistribution: f, ProposalExecutionCost: "executionCost"}
 		}
+		st.Governance.StakingOptions.TopValidatorCount = 8
 		// two users really own a registered non-OLT currency
 		for _, u := range cw.w.Users[:2] {
 			st.Balances = append(st.Balances, consensus.BalanceState{Address: u.Addr, Currency: "ETH", Amount: *amt("50000000000")})
@@ -191,6 +219,8 @@ type c14Run struct {
 	pids     []string // proposal index -> hex id
 	nonce    int
 	pubFin   bool              // a public PROPOSAL_FINALIZE succeeded in the current block
+	nextID   string            // proposal id of the next create (empty = the usual sha256 hex id)
+	lastID   string            // id used by the last create
 	prod     bool              // genesis with production-range proposal options (option updates validate)
 	cfg      map[int][2]string // config proposal index -> update key, value
 	keyOwner map[string]int    // update key -> index of the last proposal created with it
@@ -499,6 +529,9 @@ func (r *c14Run) deliver(op c14Op, tx []byte, feeKind bool) c14Op {
 	var before *big.Int
 	if measured {
 		op.Cur = c14CurCode()
+		if op.Cur == 0 && op.Kind == "create" && !c14IsHex(r.lastID) {
+			op.Cur = 4 // malformed proposal id
+		}
 		before = r.olt(who)
 	}
 	res := r.rep.DeliverTx(tx)
@@ -545,6 +578,7 @@ func (r *c14Run) finFailed(view map[string]string) []int {
 // PROPOSAL_CREATE that reuses the id of an existing proposal (must be refused whatever the proposal's state)
 func (r *c14Run) doRecreate(id, ty, proposer int, amount string, fdl, vdl int64, goal string, pass int64, cfg string, cfgValid bool) bool {
 	u := r.userKey(proposer)
+	r.lastID = r.pids[id]
 	cp := govact.CreateProposal{ProposalID: governance.ProposalID(r.pids[id]), ProposalType: c14Types[ty], Headline: "h", Description: "again", Proposer: u.Addr,
 		InitialFunding: c14Amount(amount), FundingDeadline: fdl, FundingGoal: amt(goal), VotingDeadline: vdl, PassPercentage: int(pass), ConfigUpdate: cfg}
 	tx := mkTx(action.PROPOSAL_CREATE, cp, GAS, r.memo(), u)
@@ -605,6 +639,10 @@ func (r *c14Run) userKey(ai int) Key {
 func (r *c14Run) doCreate(ty, proposer int, amount string, fdl, vdl int64, goal string, pass int64, cfg string, cfgValid bool) {
 	id := len(r.pids)
 	hexid := string(propID(fmt.Sprintf("c14-%s-%d", r.c.Name, id)))
+	if r.nextID != "" {
+		hexid, r.nextID = r.nextID, ""
+	}
+	r.lastID = hexid
 	u := r.userKey(proposer)
 	cp := govact.CreateProposal{ProposalID: governance.ProposalID(hexid), ProposalType: c14Types[ty], Headline: "h", Description: "d", Proposer: u.Addr,
 		InitialFunding: c14Amount(amount), FundingDeadline: fdl, FundingGoal: amt(goal), VotingDeadline: vdl, PassPercentage: int(pass), ConfigUpdate: cfg}
@@ -870,6 +908,9 @@ func (r *c14Run) randomOp(g *c14Gen, h int64) {
 				}
 			}
 		}
+		if rnd.Intn(30) == 0 {
+			r.nextID = []string{strings.Repeat("a", 20) + "_" + strings.Repeat("b", 43), "~" + strings.Repeat("c", 63), strings.Repeat("g", 64)}[rnd.Intn(3)]
+		}
 		r.doCreate(ty, proposer, amount, fdl, vdl, goal, pass, cfg, valid)
 	case k < 32:
 		id := anyID(func(p *c14PObs) bool { return p.Stores == 1 && p.Status == 0 })
@@ -893,7 +934,10 @@ func (r *c14Run) randomOp(g *c14Gen, h int64) {
 		if id < 0 {
 			return
 		}
-		voters := []int{r.acct(r.cw.w.Vals[0].Val.Addr), r.acct(r.cw.w.Vals[1].Val.Addr), r.acct(r.cw.w.Vals[2].Val.Addr)}
+		voters := []int{}
+		for _, vv := range r.cw.w.Vals {
+			voters = append(voters, r.acct(vv.Val.Addr))
+		}
 		v := c14Pick(rnd, voters)
 		switch rnd.Intn(16) {
 		case 0:
@@ -978,9 +1022,9 @@ func (r *c14Run) randomOp(g *c14Gen, h int64) {
 		case 0:
 			r.doStake(r.cw.w.Extra[0], []string{"1500", "2000000", "3500000"}[rnd.Intn(3)], false)
 		case 1:
-			r.doStake(r.cw.w.Vals[rnd.Intn(c14NVals)], []string{"700", "1000000"}[rnd.Intn(2)], false)
+			r.doStake(r.cw.w.Vals[rnd.Intn(len(r.cw.w.Vals))], []string{"700", "1000000"}[rnd.Intn(2)], false)
 		case 2:
-			r.doStake(r.cw.w.Vals[rnd.Intn(c14NVals)], []string{"500", "1000"}[rnd.Intn(2)], true)
+			r.doStake(r.cw.w.Vals[rnd.Intn(len(r.cw.w.Vals))], []string{"500", "1000"}[rnd.Intn(2)], true)
 		}
 	}
 }
@@ -1130,7 +1174,21 @@ func c14WithProd(f func() *c14Case) *c14Case {
 	return f()
 }
 
+// voting powers (sum 10^7 after validator 0's warm-up stake of 1000) that put single validators and small coalitions
+// exactly on and next to the thresholds 33/34, 40/41, 49/51, 60, 67 per cent
+var c14PowerSets = [][]int64{
+	nil,
+	{3349000, 3300000, 3350000},
+	{3299000, 700000, 1000000, 1500000, 1500000, 2000000},
+	{3999000, 1000000, 900000, 1100000, 490000, 510000, 2000000},
+	{3349000, 3000000, 3650000},
+}
+
 func c14Random(seed int64, ci int, nblocks int) *c14Case {
+	return c14WithPowers(c14PowerSets[(ci/2)%len(c14PowerSets)], func() *c14Case { return c14RandomP(seed, ci, nblocks) })
+}
+
+func c14RandomP(seed int64, ci int, nblocks int) *c14Case {
 	if ci%3 == 2 {
 		return c14WithProd(func() *c14Case { return c14RandomOn(seed, ci, nblocks, true) })
 	}
@@ -1568,6 +1626,120 @@ func c14ScriptCurrency() *c14Case {
 	return r.finish()
 }
 
+// tallies at and around the thresholds: three validators with powers 3350000 / 3300000 / 3350000 (total 10^7) and a
+// 67% proposal: a NO of exactly 33% leaves 67% reachable (undecided; the remaining two YES then pass it), a NO of 33.5%
+// makes a pass impossible (failed)
+func c14ScriptTally() *c14Case {
+	return c14WithPowers([]int64{3349000, 3300000, 3350000}, func() *c14Case {
+		r := c14NewRun("tally")
+		v0, v1, v2 := r.acct(r.cw.w.Vals[0].Val.Addr), r.acct(r.cw.w.Vals[1].Val.Addr), r.acct(r.cw.w.Vals[2].Val.Addr)
+		h := r.beginBlock()
+		for i := 0; i < 3; i++ {
+			r.doCreate(2, 1, "1000000000", h+4, h+4+c14VDelta[2], "10000000000", int64(c14Pass[2]), "", true)
+		}
+		r.endBlock()
+		r.beginBlock()
+		for i := 0; i < 3; i++ {
+			r.doFund(i, 2, "9000000000")
+		}
+		r.endBlock()
+		r.beginBlock()
+		r.doVote(0, v1, 2) // NO = exactly 33%: 67% can still be reached
+		r.doVote(1, v0, 2) // NO = 33.5%: at most 66.5% can be reached
+		r.doVote(2, v0, 1)
+		r.doVote(2, v2, 1) // YES = exactly 67%
+		o := r.endBlock()
+		r.c.Notes["tally_exact33_undecided"] = o.Props[0] != nil && o.Props[0].Stores == 1 && o.Props[0].Status == 1
+		r.c.Notes["tally_33p5_failed"] = o.Props[1] != nil && o.Props[1].Stores == 4 && o.Props[1].Outcome == 3
+		r.c.Notes["tally_exact67_passed"] = o.Props[2] != nil && o.Props[2].Stores == 2 && o.Props[2].Outcome == 5
+		r.beginBlock()
+		r.doVote(0, v0, 1)
+		r.doVote(0, v2, 1) // 67% YES: passes
+		o = r.endBlock()
+		r.c.Notes["tally_exact33_then_passes"] = o.Props[0] != nil && o.Props[0].Outcome == 5
+		for i := 0; i < 2; i++ {
+			r.beginBlock()
+			r.endBlock()
+		}
+		return r.finish()
+	})
+}
+
+// proposal ids that are 64 characters long but not hexadecimal: one containing '_' (the fund store splits its keys on
+// '_'), one starting with '~' (outside every store scan range)
+func c14ScriptBadID() *c14Case {
+	r := c14NewRun("badid")
+	v0, v1 := r.acct(r.cw.w.Vals[0].Val.Addr), r.acct(r.cw.w.Vals[1].Val.Addr)
+	idU := strings.Repeat("a", 30) + "_" + strings.Repeat("b", 33)
+	idU2 := strings.Repeat("c", 10) + "_" + strings.Repeat("d", 53)
+	idT := "~" + strings.Repeat("e", 63)
+	h := r.beginBlock()
+	for i, id := range []string{idU, idU2, idT} {
+		r.nextID = id
+		ty := []int{2, 1, 1}[i] // the two that are voted on are codeChange proposals (60%)
+		r.doCreate(ty, 1, "2000000000", h+5, h+5+c14VDelta[ty], "10000000000", int64(c14Pass[ty]), "", true)
+	}
+	created := r.c.Ops[len(r.c.Ops)-1].Ok || r.c.Ops[len(r.c.Ops)-2].Ok || r.c.Ops[len(r.c.Ops)-3].Ok
+	r.c.Notes["badid_created"] = created
+	r.endBlock()
+	r.beginBlock()
+	r.doFund(0, 2, "3000000000")
+	r.doFund(1, 2, "8000000000")
+	r.doFund(2, 2, "8000000000")
+	r.doCancel(0, 1)
+	r.endBlock()
+	r.beginBlock()
+	r.doWithdraw(0, 2, "3000000000", 2) // cancelled: the funder must get the contribution back
+	r.c.Notes["badid_refund_ok"] = r.c.Ops[len(r.c.Ops)-1].Ok
+	for _, i := range []int{1, 2} {
+		r.doVote(i, v0, 1)
+		r.doVote(i, v1, 1)
+	}
+	r.endBlock()
+	var o *c14Obs
+	for i := 0; i < 3; i++ {
+		r.beginBlock()
+		o = r.endBlock()
+	}
+	fin := func(i int) bool { return len(o.Props) > i && o.Props[i] != nil && o.Props[i].Stores == 8 }
+	r.c.Notes["badid_finalised"] = fin(1) && fin(2)
+	r.c.Notes["badid_records_left"] = len(r.survivors(r.rep.Dump()))
+	return r.finish()
+}
+
+// a proposal that reaches its goal but not enough votes expires after its voting deadline; what happens to its funds?
+func c14ScriptExpired() *c14Case {
+	r := c14NewRun("expired")
+	v0 := r.acct(r.cw.w.Vals[0].Val.Addr)
+	h := r.beginBlock()
+	r.doCreate(2, 1, "2000000000", h+3, h+3+c14VDelta[2], "10000000000", int64(c14Pass[2]), "", true)
+	r.endBlock()
+	r.beginBlock()
+	r.doFund(0, 2, "8000000000")
+	r.endBlock()
+	r.beginBlock()
+	r.doVote(0, v0, 1)
+	r.endBlock()
+	var o *c14Obs
+	for r.rep.H < h+1+c14VDelta[2]+3 {
+		r.beginBlock()
+		o = r.endBlock()
+	}
+	r.c.Notes["expired_reached"] = o.Props[0] != nil && o.Props[0].Stores == 4 && o.Props[0].Outcome == 2
+	r.beginBlock()
+	r.doWithdraw(0, 2, "8000000000", 2)
+	wok := r.c.Ops[len(r.c.Ops)-1].Ok
+	r.doFinalize(0, 3)
+	fok := r.c.Ops[len(r.c.Ops)-1].Ok
+	o = r.endBlock()
+	r.c.Notes["expired_funds_locked"] = !wok && !fok && o.Props[0].Total == "10000000000" && o.Props[0].Stores == 4
+	for i := 0; i < 2; i++ {
+		r.beginBlock()
+		r.endBlock()
+	}
+	return r.finish()
+}
+
 // a full honest life: create, fund to the goal, vote yes, automatic finalisation (config update applied), and a failing one
 func c14ScriptLife() *c14Case {
 	r := c14NewRun("life")
@@ -1709,7 +1881,7 @@ func c14WriteCoq(path string, cases []*c14Case, na int) {
 		for _, b := range c.Init {
 			ini = append(ini, c14Z(b))
 		}
-		sb.WriteString(fmt.Sprintf("Definition c : gcase := mkCase %d %d [%s] %s\n [%s]\n [%s]\n [%s].\nEnd C%d.\n", c.NP, na, strings.Join(ini, "; "), c14Z(c.Pool),
+		sb.WriteString(fmt.Sprintf("Definition c : gcase := mkCase %d %d [%s] %s\n [%s]\n [%s]\n [%s].\nEnd C%d.\n", c.NP, len(c.Init), strings.Join(ini, "; "), c14Z(c.Pool),
 			strings.Join(ops, ";\n  "), strings.Join(oks, "; "), strings.Join(obs, ";\n  "), ci))
 		names = append(names, fmt.Sprintf("C%d.c", ci))
 	}
@@ -1746,7 +1918,7 @@ func c14Main(args []string) int {
 	fs.Parse(args)
 
 	cases := []*c14Case{}
-	builders := []func() *c14Case{c14ScriptE11, c14ScriptLife, c14ScriptNegative, c14ScriptDrift, c14ScriptGoal(true), c14ScriptGoal(false), c14ScriptOptions, c14ScriptFinFail, c14ScriptRelaunch, c14ScriptCurrency}
+	builders := []func() *c14Case{c14ScriptE11, c14ScriptLife, c14ScriptNegative, c14ScriptDrift, c14ScriptGoal(true), c14ScriptGoal(false), c14ScriptOptions, c14ScriptFinFail, c14ScriptRelaunch, c14ScriptCurrency, c14ScriptTally, c14ScriptBadID, c14ScriptExpired}
 	for i := 0; i < *n; i++ {
 		ci := i
 		builders = append(builders, func() *c14Case { return c14Random(*seed, ci, *nb) })
